@@ -101,7 +101,20 @@ func lenArith(c *core.Ctx, R, fnName string, endTopOK func(k int64) bool, endTop
 		}
 		c.Check(a == 1 && okK(k), R, key, c.P.Pos(as.Pos()), whatK, core.F("candidate length is %d*End()%+d: %s", a, k, why))
 	}
-	chk("Length:endtop", endTopAssign, endTopOK, endTopWhat, "the EndTop lexeme lies on the first trailing byte; any other offset cuts the last byte of a value directly followed by the trailer (`{}x`) or includes the trailer")
+	if endTopAssign == nil {
+		// no adjustment at EndTop: the length stays the end of the last lexeme (+1)
+		onlyLeaves := len(endTopIf.Body.List) >= 1
+		for _, st := range endTopIf.Body.List {
+			switch st.(type) {
+			case *ast.BranchStmt, *ast.ReturnStmt:
+			default:
+				onlyLeaves = false
+			}
+		}
+		c.Check(onlyLeaves, R, "Length:endtop", c.P.Pos(endTopIf.Pos()), "at the EndTop lexeme the length is left at the end of the last lexeme", "the EndTop branch neither assigns the length nor simply leaves the loop")
+	} else {
+		chk("Length:endtop", endTopAssign, endTopOK, endTopWhat, "the EndTop lexeme lies on the first trailing byte; any other offset cuts the last byte of a value directly followed by the trailer (`{}x`) or includes the trailer")
+	}
 	chk("Length:lexeme", otherAssign, func(k int64) bool { return k == 1 }, "candidate length = End()+1", "End() is the inclusive index of the lexeme's last byte, the length up to it is End()+1")
 	// --- (trim)
 	var trimIf *ast.IfStmt
